@@ -28,7 +28,19 @@ def build_record(spec: Dict[str, Any]):
                     description=spec.get("description", ""), annotations=annotations)
     for key, val in sorted((spec.get("annotations") or {}).items()):
         record.add_annotation(key, val)
-    for gene in spec.get("genes", []):
+    genes = list(spec.get("genes", []))
+    order = spec.get("build_order", "genes_first")
+    if order == "areas_first":
+        # areas (and regions) exist before any gene: children are linked one by one as genes arrive,
+        # in the order given, as when an annotated GenBank file is read back
+        _add_areas(record, spec)
+        if spec.get("create"):
+            record.create_candidate_clusters()
+            record.create_regions()
+        first, later = [], genes
+    else:
+        first, later = genes, []
+    for gene in first + later:
         size = sum(e - s for s, e in gene["parts"])
         cds = CDSFeature(make_location(gene["parts"], gene["strand"]),
                          translation=gene.get("translation") or "M" * max(1, size // 3),
@@ -36,6 +48,21 @@ def build_record(spec: Dict[str, Any]):
         for product in gene.get("cores", []):
             cds.gene_functions.add(GeneFunction.CORE, "sim", "sim core", product=product)
         record.add_cds_feature(cds)
+    if order != "areas_first":
+        _add_areas(record, spec)
+        if spec.get("create"):
+            record.create_candidate_clusters()
+            record.create_regions()
+    record.skip = spec.get("skip")
+    if spec.get("original_id"):
+        record.original_id = spec["original_id"]
+    if spec.get("record_index") is not None:
+        record.record_index = spec["record_index"]
+    return record
+
+
+def _add_areas(record, spec: Dict[str, Any]) -> None:
+    from antismash.common.secmet.features import Protocluster, SubRegion
     for proto in spec.get("protos", []):
         record.add_protocluster(Protocluster(make_location(proto["core"]), make_location(proto["loc"]), tool="sim",
                                              product=proto["product"], cutoff=proto.get("cutoff", 5),
@@ -43,15 +70,6 @@ def build_record(spec: Dict[str, Any]):
                                              detection_rule="sim-rule"))
     for sub in spec.get("subs", []):
         record.add_subregion(SubRegion(make_location(sub["loc"]), tool="sim", label=sub.get("label", "")))
-    if spec.get("create"):
-        record.create_candidate_clusters()
-        record.create_regions()
-    record.skip = spec.get("skip")
-    if spec.get("original_id"):
-        record.original_id = spec["original_id"]
-    if spec.get("record_index") is not None:
-        record.record_index = spec["record_index"]
-    return record
 
 
 def _feature_dump(feature) -> Dict[str, Any]:
